@@ -178,13 +178,29 @@ struct VT
 {
     static constexpr bool tracked = false;
     static T make(int v) { return static_cast<T>(v); }
-    static int decode(const T& x) { return static_cast<int>(x); }
+    // comparison domain (digits 1..3): floating-point parameters use +0.0 / -0.0 / 3.0 - digits 1 and 2 are two
+    // representations of ONE logical value (Cntgs!ValC maps both to 1)
+    static T make_digit(int d)
+    {
+        if constexpr (std::is_floating_point_v<T>)
+            return d == 1 ? T(0.0) : (d == 2 ? -T(0.0) : T(d));
+        else
+            return static_cast<T>(d);
+    }
+    static int decode(const T& x)
+    {
+        if constexpr (std::is_floating_point_v<T>)
+            return x == T(0) ? 1 : static_cast<int>(x);
+        else
+            return static_cast<int>(x);
+    }
 };
 template <int N, int A>
 struct VT<Tracked<N, A>>
 {
     static constexpr bool tracked = true;
     static Tracked<N, A> make(int v) { return Tracked<N, A>(v); }
+    static Tracked<N, A> make_digit(int d) { return Tracked<N, A>(d); }
     static int decode(const Tracked<N, A>& x) { return x.peek(); }
 };
 template <int N, int A>
@@ -192,6 +208,7 @@ struct VT<Blob<N, A>>
 {
     static constexpr bool tracked = false;
     static Blob<N, A> make(int v) { return Blob<N, A>(v); }
+    static Blob<N, A> make_digit(int d) { return Blob<N, A>(d); }
     static int decode(const Blob<N, A>& x) { return x.get(); }
 };
 template <>
@@ -199,6 +216,7 @@ struct VT<std::string>
 {
     static constexpr bool tracked = false;
     static std::string make(int v) { return "a long string value that is not stored inline #" + std::to_string(v); }
+    static std::string make_digit(int d) { return make(d); }
     static int decode(const std::string& x)
     {
         auto p = x.rfind('#');
